@@ -78,8 +78,9 @@ def movable_groups(project):
     return n
 
 
-def add_unused_macro(project, position, rng):
-    """C07/C20: a macro that is never pasted contributes nothing"""
+def add_unused_macro(project, position, rng, paste_existing=False):
+    """C07/C20: a macro that is never pasted contributes nothing (paste_existing: its body pastes an existing macro twice,
+    and it is written before every other macro)"""
     if not isinstance(project, Project):
         project = _lower(project)
     p = project.copy()
@@ -95,8 +96,13 @@ def add_unused_macro(project, position, rng):
         [Node("HTTP", "GET", ["/never/used"], children=[Node("RESP", "200", ["any"])])],
         [Node("ENUM", "ENUM", ["@neverEnum"], None, "[1]", "enum")],
     ])
+    existing = sorted(used)
     ok = [i for i in range(1, len(tops) + 1) if not (i < len(tops) and tops[i].hint)]
     i = ok[position % len(ok)]
+    if paste_existing and existing:
+        e = rng.choice(existing)
+        body = [Node("PASTE", "PASTE", [e]), Node("PASTE", "PASTE", [e])]
+        i = ok[0]
     tops.insert(i, Node("MACRO", "MACRO", [name], children=body, force_parens=True, unit="macro:" + name))
     return p.renumber(), "unused MACRO %s at top-level position %d" % (name, i)
 
@@ -151,6 +157,25 @@ def add_fresh(model: ApiModel, kind, position, rng):
         _insert_unit(m, "type", len(m.types) - 1, position, units)
         added["userTypes"] = [n]
         desc = "fresh TYPE %s at %d" % (n, position)
+    elif kind == "type-forward":
+        # a fresh type that REFERS to an existing one and is written before everything else (a forward reference);
+        # types that use enum rules, inherit or refer further are preferred
+        n = _fresh_name(m, rng, "freshF")
+        refs = [x for x in m.types if x.notation == "jsight"]
+        if not refs:
+            raise ValueError("no type to refer to")
+        rich = [x for x in refs if x.enums or x.allof or x.refs]
+        b = rng.choice(rich if rich and rng.random() < 0.8 else refs)
+        if b.top == ["object", "object"] and rng.random() < 0.4:
+            t = UserType(n, "fresh", "jsight", '{ // {allOf: "%s"}\n  "fresh_own": 1\n}' % b.name, [b.name], [], ["object", "object"], [b.name], ["fresh_own"])
+        elif rng.random() < 0.5:
+            t = UserType(n, None, "jsight", '{\n  "fresh_ref": %s\n}' % b.name, [b.name], [], ["object", "object"], [], ["fresh_ref"])
+        else:
+            t = UserType(n, None, "jsight", '[%s]' % b.name, [b.name], [], ["array", "array"])
+        m.types.append(t)
+        _insert_unit(m, "type", len(m.types) - 1, 0, units)
+        added["userTypes"] = [n]
+        desc = "fresh TYPE %s referring to %s, before everything else" % (n, b.name)
     elif kind == "enum":
         n = _fresh_name(m, rng, "freshE")
         m.enums.append(Enum(n, "fresh", ["f1", "f2"]))
